@@ -191,20 +191,20 @@ def run_case(case, env):
         def brute():
             return {w for w in words if acc(w)}
 
-        budget = 60_000_000 if kind in ('cfg', 'pda') else 20_000_000      # >= 10x the measured maximum of the repaired tree per kind
+        budget = 30_000_000 if kind in ('cfg', 'pda') else 20_000_000      # >= 10x the measured maximum of the repaired tree per kind
         if kind == 'pda':
             with ClosureSpy(s0, step['limit']) as spy:
                 r1 = call(env, enum, budget=budget)
-                r2 = call(env, brute, budget=budget)
+                r2 = call(env, brute, budget=budget) if r1[0] != 'timeout' else None
                 # generate_language must be the same function of the same ambient knob
-                r3 = call(env, lg.generate_language, obj, n, budget=budget)
+                r3 = call(env, lg.generate_language, obj, n, budget=budget) if r1[0] != 'timeout' and r2[0] != 'timeout' else None
             truncated = spy.truncated
             if spy.early:
                 out['viol'].append(viol('closure-truncated-below-limit', 'pda_epsilon_closure', {'step': step, **spy.early}))
         else:
             r1 = call(env, enum, budget=budget)
-            r2 = call(env, brute, budget=budget)
-            if kind == 'tm' and step['max_steps'] != 1000:
+            r2 = call(env, brute, budget=budget) if r1[0] != 'timeout' else None
+            if (kind == 'tm' and step['max_steps'] != 1000) or r1[0] == 'timeout' or r2[0] == 'timeout':
                 r3 = None       # generate_language has no step-budget argument; compared only under the default budget
             else:
                 r3 = call(env, lg.generate_language, obj, n, budget=budget)
@@ -224,6 +224,8 @@ def run_case(case, env):
                 bad = True
         if bad:
             dig.append('X')
+            if any(r is not None and r[0] == 'timeout' for r in (r1, r2, r3)):
+                break           # one exceeded budget per case is enough; the rest of the session would only burn time
             continue
         E, B = r1[1], r2[1]
         if not isinstance(E, (set, frozenset)) or not all(isinstance(w, str) for w in E):
